@@ -438,3 +438,58 @@ def check(cx):
                "survives recovery is analysed again after the next crash, and because transaction ids handed out since the last "
                "checkpoint are handed out again, a new committed transaction then lends its COMMIT to an old loser's operations",
                floor=5)
+
+    # ---- C02.10 recovery's re-insert removes a loser's deletion mark whatever the loser's status ------------------------------
+    r10 = cx.rule("C02.10", "FLOW: recovery undoes a loser's DELETE by re-inserting the before-image through DmlExecutor::insert; in its "
+                  "`row id already present` branch the overwrite of the stored tuple is decided by the raw deletion mark "
+                  "(Tuple::is_deleted) alone and by no snapshot status query - the loser is neither committed nor known aborted "
+                  "to the recovery snapshot, so a visibility-based test leaves its mark in place", floor=2)
+    fi = cx.guard(r10, "insert", p.fn, "runtime::dml::DmlExecutor::insert")
+    ud = cx.guard(r10, "undo_delete", p.fn, "io::recovery::WalRecuperator::undo_delete")
+    if fi and ud:
+        cx.verdict(p.reaches(ud.id, fi.id), r10, "undo_delete-reinserts", ud.where(), "undo_delete reaches DmlExecutor::insert",
+                   "undo_delete no longer re-inserts through DmlExecutor::insert (re-derive this rule)")
+        ups = [c for c in fi.calls() if c.callee.endswith("Btree::<Acc>::update")]
+        marks = [c for c in fi.calls() if c.callee == "storage::tuple::Tuple::is_deleted"]
+        status = {"multithreading::coordinator::Snapshot::is_committed_before_snapshot", "multithreading::coordinator::Snapshot::is_transaction_aborted",
+                  "multithreading::coordinator::Snapshot::is_visible"}
+        good = bool(ups) and bool(marks)
+        why = ""
+        for u in ups:
+            decided_by_mark = False
+            for bi, b in enumerate(fi.blocks):
+                t = b["term"]
+                if t["t"] != "switch" or not fi.dominates(bi, u.bb) or bi == u.bb:
+                    continue
+                arms = [x[1] for x in t["targets"]] + [t["otherwise"]]
+                if all(u.bb in fi.reachable(a, blocked={bi}) for a in arms):
+                    continue          # not a deciding branch
+                l = op_local(t["o"])
+                cl = fi.dep_closure(l) | {l}
+                if any(m_.dst and m_.dst[0] in cl for m_ in marks):
+                    decided_by_mark = True
+                # a status query (directly or in a closure handed to an Option adaptor) feeding this branch
+                for c in fi.calls():
+                    if not (c.dst and c.dst[0] in cl):
+                        continue
+                    tg = set(p.targets(c)) | {c.callee}
+                    for t_ in list(tg):
+                        g_ = p.fns.get(t_)
+                        if g_ is not None and g_.kind == "closure":
+                            tg |= {cc.callee for cc in g_.calls()}
+                    if tg & status:
+                        good = False
+                        why = "a snapshot status query (%s) decides the overwrite" % sorted(x.rsplit("::", 1)[-1] for x in tg & status)
+            good = good and decided_by_mark
+            if not decided_by_mark and not why:
+                why = "the overwrite is not decided by Tuple::is_deleted"
+        cx.verdict(good, r10, "overwrite-decided-by-raw-mark", fi.where(), "update of the stored tuple is decided by is_deleted()",
+                   "in DmlExecutor::insert %s: recovery's undo of an uncommitted DELETE then leaves the deletion mark, and the "
+                   "rolled-back DELETE becomes permanent after the crash" % (why or "there is no overwrite of an existing deleted row"))
+
+    # ---- C02.11 (construct shared with C01.1) -------------------------------------------------------------------------
+    from . import c01
+    cx.include(c01, {"C01.1"}, "C02.11", "shared with C01.1: every statement that ends a transaction forces the log before it returns. The pager "
+               "writes dirty pages back without forcing the log first (advisory C02.5), so this per-statement force is what keeps an "
+               "open transaction's records ahead of its pages; a statement kind that skips it lets a crash keep uncommitted rows with "
+               "nothing in the log to undo them", floor=7)
